@@ -5,6 +5,7 @@
 #include <stdlib.h>
 #include <string.h>
 #include <vector>
+#include <string>
 
 namespace nvctl {
 
@@ -105,6 +106,58 @@ size_t BoundedReadLength(FILE* f, char* out) {
   size_t len = fread(buf, 1, sizeof(buf), f);
   memcpy(out, buf, len);
   return len;
+}
+
+// --- L1 control: a line loop that does not step over a lone '\r' -------------------------------
+size_t StuckLineLoop(const std::string& text) {
+  size_t lines = 0;
+  size_t start = 0;
+  while (start < text.size()) {
+    size_t end = text.find_first_of("\r\n", start);
+    if (end == std::string::npos)
+      end = text.size();
+    ++lines;
+    if (end + 1 < text.size() && text[end] == '\r' && text[end + 1] == '\n')
+      end += 2;
+    else if (end < text.size() && text[end] == '\n')
+      ++end;
+    start = end;
+  }
+  return lines;
+}
+
+// --- L1 control (negative): every terminator byte is stepped over ---------------------------
+size_t GoodLineLoop(const std::string& text) {
+  size_t lines = 0;
+  size_t start = 0;
+  while (start < text.size()) {
+    size_t end = text.find_first_of("\r\n", start);
+    if (end == std::string::npos)
+      end = text.size();
+    ++lines;
+    if (end < text.size() && text[end] == '\r')
+      ++end;
+    if (end < text.size() && text[end] == '\n')
+      ++end;
+    start = end;
+  }
+  return lines;
+}
+
+// --- L1 control: an input-driven loop with a way round that reads nothing -------------------
+int SkipsRead(FILE* f) {
+  int n = 0;
+  for (;;) {
+    if (n & 1) {
+      ++n;
+      continue;
+    }
+    int c = fgetc(f);
+    if (c == EOF)
+      break;
+    ++n;
+  }
+  return n;
 }
 
 }  // namespace nvctl
